@@ -185,4 +185,73 @@ pub fn run(out: &mut Out, tier: &str, seed: u64) {
         generic_ops(out, l, r);
     }
     out.meta(&serde_json::json!({"int_grid": ig.len(), "float_grid": fg.len(), "random_pairs": n_rand}));
+    compiled(out, &mut rng, tier);
+}
+
+/// The operators as programs use them — binary `/ // %` and the compound forms `/= //= %=` on int and float
+/// variables — through the real front end, lowering, emitter and rustc, executed.
+fn compiled(out: &mut Out, rng: &mut Rng, tier: &str) {
+    use crate::runner::{self, Case, Outcome};
+    let n_prog = if tier == "thorough" { 60 } else { 14 };
+    let ints: [i64; 10] = [7, -7, 2, -2, 3, -3, 1, 10, -10, 0];
+    let floats: [f64; 10] = [7.5, -7.5, 2.0, -2.0, 0.5, -0.5, 3.0, 1.25, -10.0, 0.0];
+    struct C { form: &'static str, op: &'static str, a: Num, b: Num }
+    let mut programs: Vec<(Vec<C>, String)> = Vec::new();
+    for pi in 0..n_prog {
+        let mut cases: Vec<C> = Vec::new();
+        let mut body = String::new();
+        let k = 6;
+        for ci in 0..k {
+            let last = ci == k - 1;
+            let op = *rng.pick(&["pydiv", "pyfloordiv", "pymod"]);
+            let a_int = rng.chance(1, 2);
+            let b_int = rng.chance(1, 2);
+            // compound forms keep the variable's type: an int variable only takes `//=` / `%=` with an int operand
+            let aug_ok = if a_int { b_int && op != "pydiv" } else { true };
+            let form = if aug_ok && (pi + ci) % 2 == 0 { "aug" } else { "bin" };
+            let a = if a_int { Num::I(*rng.pick(&ints)) } else { Num::F(*rng.pick(&floats)) };
+            // only the last case of a program may have a zero divisor (it stops the program)
+            let zero = last && rng.chance(1, 2);
+            let b = if b_int { Num::I(if zero { 0 } else { *rng.pick(&ints[..9]) }) } else { Num::F(if zero { 0.0 } else { *rng.pick(&floats[..9]) }) };
+            let lit = |x: Num| match x { Num::I(i) => if i < 0 { format!("0 - {}", -i) } else { i.to_string() }, Num::F(f) => if f < 0.0 || (f == 0.0 && f.is_sign_negative()) { format!("0.0 - {:?}", -f) } else { format!("{f:?}") } };
+            let ty = |x: Num| match x { Num::I(_) => "int", Num::F(_) => "float" };
+            let sym = match op { "pydiv" => "/", "pyfloordiv" => "//", _ => "%" };
+            body.push_str(&format!("    mut a{ci}: {} = {}\n    b{ci}: {} = {}\n", ty(a), lit(a), ty(b), lit(b)));
+            if form == "aug" {
+                body.push_str(&format!("    a{ci} {sym}= b{ci}\n    println(a{ci})\n"));
+            } else {
+                body.push_str(&format!("    r{ci} = a{ci} {sym} b{ci}\n    println(r{ci})\n"));
+            }
+            cases.push(C { form, op, a, b });
+        }
+        programs.push((cases, format!("def main() -> None:\n{body}")));
+    }
+    let batch: Vec<Case> = programs.iter().map(|(_, src)| Case { name: String::new(), source: src.clone() }).collect();
+    let outs = runner::run_batch("/verif/.build/batch/c04", "/verif/.build/batch-target", &batch);
+    let mut n_cases = 0u64;
+    for ((cases, _), o) in programs.iter().zip(outs.iter()) {
+        let (lines, panic): (Vec<String>, Option<String>) = match o {
+            Outcome::Ran { stdout, panic, .. } => (stdout.lines().map(|l| l.to_string()).collect(), panic.clone()),
+            other => (vec![], Some(format!("NOT-RUN {}", runner::show(other)))),
+        };
+        for (ci, c) in cases.iter().enumerate() {
+            let int_result = matches!((c.a, c.b), (Num::I(_), Num::I(_))) && c.op != "pydiv";
+            let real = match lines.get(ci) {
+                Some(l) => {
+                    if int_result { l.trim().parse::<i64>().map(|v| format!("ok i {v}")).unwrap_or_else(|_| format!("unparsable {l}")) }
+                    else { l.trim().parse::<f64>().map(|v| format!("ok f {}", fbits(v))).unwrap_or_else(|_| format!("unparsable {l}")) }
+                }
+                None => match (&panic, ci == lines.len()) {
+                    (Some(m), true) => format!("panic {m}"),
+                    (Some(m), false) if m.starts_with("NOT-RUN") => m.clone(),
+                    _ => "not-reached".to_string(),
+                },
+            };
+            if real == "not-reached" { continue; }
+            n_cases += 1;
+            out.case(&format!("c04 prog_{}_{} {} {}", c.form, c.op, c.a.enc(), c.b.enc()), &real);
+        }
+    }
+    let _ = std::fs::remove_dir_all("/verif/.build/batch/c04");
+    out.meta(&serde_json::json!({"compiled_programs": programs.len(), "compiled_cases": n_cases}));
 }
